@@ -23,7 +23,7 @@ def _src_root(args_src=None):
 def _all_tasks():
     from pyvc import tasks_codec, tasks_prims
     tasks = tasks_codec.all_tasks() + tasks_prims.all_tasks()
-    for modname in ("tasks_obj", "tasks_container"):
+    for modname in ("tasks_obj", "tasks_container", "tasks_access"):
         try:
             mod = __import__("pyvc." + modname, fromlist=["all_tasks"])
             tasks += mod.all_tasks()
@@ -101,13 +101,19 @@ def property_config(pid, tasks):
     P["C12"] = dict(decisive=select(tasks, ("B.", "R3.", "C13.BTSString.read", "C13.BTSString.bread") + tuple(f"TDF.tdfTypes.{k}.pad" for k in ("i32",))),
                     chain=[], harness=dict(checks=["build"], kinds=["B", "R3", "S"], capture=["CAP.dontcare", "CAP.reencode", "CAP.decode"]))
     P["C13"] = dict(decisive=select(tasks, ("C13.",)), chain=[], harness=dict(btsstring=True))
-    for modname in ("tasks_obj", "tasks_container"):
+    for modname in ("tasks_obj", "tasks_container", "tasks_access"):
         try:
             mod = __import__("pyvc." + modname, fromlist=["property_config"])
             P.update(mod.property_config(tasks, select))
         except ImportError:
             pass
-    return P.get(pid)
+    cfg = P.get(pid)
+    if cfg is not None and pid in LIBCHECK_FOR:
+        cfg.setdefault("harness", {}).setdefault("extra", []).append(("harness.libcheck", "run"))
+    return cfg
+
+
+LIBCHECK_FOR = {"C05", "C06", "C13", "C17"}      # checks that also validate the assumed library contracts on every run
 
 
 ASSUMPTIONS = [
@@ -236,6 +242,13 @@ def main(argv=None):
         print("CHECKER-ERROR: no obligations generated")
         return 3
     out = run_tasks(names, src, tier)
+    # verdicts must not depend on machine load: tasks with a solver 'unknown' are re-run with few processes and a larger budget
+    shaky = [o["task"] for o in out if any(r["result"] == "unknown" for r in o["results"]) and not o["crash"]]
+    if shaky:
+        jobs = [(n, src, 60000 if tier == "quick" else 180000) for n in shaky]
+        with mp.get_context("fork").Pool(min(4, len(jobs))) as pool:
+            redo = {o["task"]: o for o in pool.map(_worker, jobs, chunksize=1)}
+        out = [redo.get(o["task"], o) if o["task"] in redo and not redo[o["task"]]["crash"] else o for o in out]
     by = {o["task"]: o for o in out}
     crashes = [o for o in out if o["crash"]]
     for o in crashes:
@@ -276,6 +289,12 @@ def main(argv=None):
         standins, hfails, harness_ok = [], [], False
         print(f"CHECKER-ERROR bounded suites crashed: {type(e).__name__}: {e}")
         traceback.print_exc(limit=6)
+    lib_fails = [f for f in hfails if f["kind"].startswith("libcheck")]
+    hfails = [f for f in hfails if not f["kind"].startswith("libcheck")]
+    for f in lib_fails[:5]:
+        print(f"CHECKER-ERROR assumed library contract does not hold in this sandbox: {f['message']}")
+    if lib_fails:
+        harness_ok = False
     # ---- verdict
     violations, known_hits = [], []
     for f in hfails[:5]:
